@@ -232,6 +232,10 @@ def byte_value(prog, f, e, bufname, env=None, depth=0):
     def is_bad(v):
         return isinstance(v, tuple) and v[0] == 'bad'
 
+    def unsigned8(n):
+        t = (n.get('ct') or n.get('t') or '').replace('const ', '').strip()
+        return t in ('unsigned char', 'uint8_t', 'std::uint8_t', '__uint8_t', 'std::byte')
+
     def ev(n):
         # explicit conversion to an unsigned 8-bit type masks a raw byte
         while n is not None and n['k'] in ('ImplicitCastExpr', 'CStyleCastExpr', 'CXXFunctionalCastExpr', 'CXXStaticCastExpr',
@@ -261,10 +265,14 @@ def byte_value(prog, f, e, bufname, env=None, depth=0):
         if k == 'ArraySubscriptExpr':
             b, i = ev(kids(n)[0]), ev(kids(n)[1])
             if b and i and not is_b(b) and not is_b(i) and b[0] == 'ptr' and i[0] == 'int':
+                if unsigned8(n):
+                    return _bv({b[1] + i[1]: 0})        # an element of an unsigned 8-bit buffer is the byte itself
                 return ('raw', b[1] + i[1])
             return None
         if k == 'UnaryOperator' and n.get('op') == '*':
             b = ev(kids(n)[0])
+            if b and not is_b(b) and b[0] == 'ptr' and unsigned8(n):
+                return _bv({b[1]: 0})
             return ('raw', b[1]) if b and not is_b(b) and b[0] == 'ptr' else None
         if k == 'UnaryOperator' and n.get('op') == '&':
             b = ev(kids(n)[0])
